@@ -5,6 +5,7 @@ R1 affine inverse (invertible-op-sequence domain): the encoder's affine part is 
    zero-median nudge; encode/decode use the same range arguments.  Overrides are analysed with the override
    substituted (super() calls inlined).
 R2 endpoint exactness precondition: step_mag == 1 / (raw_max - raw_min) wherever it is defined.
+R4 codec purity: no in-place modification of the caller's array, no memo on self keyed without all inputs.
 R3 instance table (constant evaluation of every constructed instance in the tree): lower < upper, constructor
    assertions hold (unsigned primitive, bit budget), the clamp does not cut into the decoded wire range,
    zero_median is on exactly when zero falls half-way between the two central codes and off when zero is a code.
@@ -443,12 +444,30 @@ class OpSeq:
             counts[s.path] = counts.get(s.path, 0) + 1
         defs: Dict[str, ast.AST] = {}
         cond_locals: Dict[str, List[ast.AST]] = {}
+        # value bound to each plain-name target (tuple unpacking of a tuple display is paired element-wise)
+        bound: Dict[int, Optional[ast.AST]] = {}
+        for n in walk(node):
+            if isinstance(n, ast.Assign):
+                for t in n.targets:
+                    if isinstance(t, ast.Name):
+                        bound[id(t)] = n.value
+                    elif isinstance(t, (ast.Tuple, ast.List)):
+                        if isinstance(n.value, (ast.Tuple, ast.List)) and len(n.value.elts) == len(t.elts) \
+                                and not any(isinstance(x, ast.Starred) for x in list(t.elts) + list(n.value.elts)):
+                            for tt, vv in zip(t.elts, n.value.elts):
+                                bound[id(tt)] = vv
+                        else:
+                            for tt in ast.walk(t):
+                                bound[id(tt)] = None
+            elif isinstance(n, ast.AnnAssign) and isinstance(n.target, ast.Name):
+                bound[id(n.target)] = n.value
         for s in sts:
             if s.path == tracked or "." in s.path or "[" in s.path:
                 continue
-            if s.kind == "assign" and s.value is not None and counts[s.path] == 1 and s.path not in params \
-                    and not _mentions(s.value, tracked):
-                defs[s.path] = s.value
+            val = bound.get(id(s.target)) if s.kind == "assign" else None
+            if s.kind == "assign" and val is not None and counts[s.path] == 1 and s.path not in params \
+                    and not _mentions(val, tracked):
+                defs[s.path] = val
             elif counts[s.path] > 1:
                 cond_locals.setdefault(s.path, []).append(s.node)
         st = _State(self, f, tracked, defs, cond_locals, subst or {}, depth)
@@ -485,7 +504,33 @@ class _State:
             e = _Subst(todo).visit(ast.Expression(body=e)).body
         if self.subst:
             e = _Subst(self.subst).visit(ast.Expression(body=e)).body
+        e = self._expand_properties(e)
         return ast.fix_missing_locations(e)
+
+    def _expand_properties(self, e: ast.AST, depth=0) -> ast.AST:
+        """`self.X` where X is a @property of the analysed class with a single-expression body is replaced by
+        that expression (a derived constant hoisted into a property must not blind the comparison)."""
+        repo, inst = self.seq.repo, self.seq.inst
+        changed = False
+
+        class T(ast.NodeTransformer):
+            def visit_Attribute(tself, n):
+                nonlocal changed
+                tself.generic_visit(n)
+                if isinstance(n.value, ast.Name) and n.value.id == "self" and isinstance(n.ctx, ast.Load):
+                    m = repo.lookup_method(inst, n.attr)
+                    if m is not None and any((ap(d) or "").split(".")[-1] in ("property", "cached_property")
+                                             for d in m.node.decorator_list):
+                        body = [b for b in m.node.body
+                                if not (isinstance(b, ast.Expr) and isinstance(b.value, ast.Constant))]
+                        if len(body) == 1 and isinstance(body[0], ast.Return) and body[0].value is not None:
+                            changed = True
+                            return _clone(body[0].value)
+                return n
+        out = T().visit(ast.Expression(body=e)).body
+        if changed and depth < 4:
+            return self._expand_properties(out, depth + 1)
+        return out
 
     def block(self, stmts) -> List[Op]:
         ops: List[Op] = []
@@ -791,6 +836,27 @@ def _tracked_for(f: FuncInfo, kind: str, side: str) -> Optional[str]:
     return None
 
 
+def _expand_locals(f: FuncInfo, e: ast.AST) -> ast.AST:
+    """Replace locals that are assigned exactly once (plain `name = expr`) by their defining expression."""
+    sts = [s for s in stores(f.node, into_defs=False) if "." not in s.path and "[" not in s.path]
+    counts: Dict[str, int] = {}
+    for s_ in sts:
+        counts[s_.path] = counts.get(s_.path, 0) + 1
+    params = {a.arg for a in f.node.args.args}
+    defs = {s_.path: s_.value for s_ in sts
+            if counts[s_.path] == 1 and s_.kind == "assign" and s_.value is not None and s_.path not in params
+            and isinstance(s_.target, ast.Name) and isinstance(s_.node, (ast.Assign, ast.AnnAssign))
+            and not (isinstance(s_.node, ast.Assign) and any(isinstance(t, (ast.Tuple, ast.List)) for t in s_.node.targets))}
+    e = _clone(e)
+    for _ in range(6):
+        names = {n.id for n in ast.walk(e) if isinstance(n, ast.Name)}
+        todo = {k: v for k, v in defs.items() if k in names}
+        if not todo:
+            break
+        e = _Subst(todo).visit(ast.Expression(body=e)).body
+    return e
+
+
 def r1(ctx, pairs, seqs):
     ctx.rule("C10.R1", "affine inverse (op-sequence domain): encode's affine part is the reversed inverse of decode's, "
                        "the encoder rounds to nearest, only clamp / zero-median nudge / rounding besides; encode and "
@@ -848,7 +914,8 @@ def r1(ctx, pairs, seqs):
         ec = [c for c in calls(encf.node) if ap(c.func) == "self._float_to_quantized"]
         dc = [c for c in calls(decf.node) if ap(c.func) == "self._quantized_to_float"]
         n += 1
-        ok = len(ec) == 1 and len(dc) == 1 and [_t(a) for a in ec[0].args[1:]] == [_t(a) for a in dc[0].args[1:]] \
+        ok = len(ec) == 1 and len(dc) == 1 and \
+            [_t(_expand_locals(encf, a)) for a in ec[0].args[1:]] == [_t(_expand_locals(decf, a)) for a in dc[0].args[1:]] \
             and not ec[0].keywords and not dc[0].keywords and len(ec[0].args) == 3
         ctx.ob("C10.R1", f"{ci.name}: encode and decode pass the same (lower, upper)", ok, encf.where,
                f"encode calls {[norm(c) for c in ec]}, decode calls {[norm(c) for c in dc]}")
@@ -1050,6 +1117,8 @@ def _apply(num: Num, ops: List[Op], x: float, env: Dict[str, Any]) -> float:
         if o.kind == "clamp":
             continue
         a = num.ev(o.a, env) if o.a is not None else None
+        if a is not None and (isinstance(a, bool) or not isinstance(a, (int, float))):
+            raise Unknown(f"{o.text()} = {a!r}")
         if o.kind == "add":
             x = x + a
         elif o.kind == "sub":
@@ -1203,6 +1272,8 @@ def self_check_range(ctx, inst: Inst, where, num: Num, dec, enc, env, raw_min, r
         d_hi = _apply(num, dec, float(raw_max), env)
     except Unknown as u:
         raise AnalysisError(f"{where} {inst.key}: decode not evaluable on the raw extremes ({u})")
+    if not all(isinstance(x, (int, float)) and not isinstance(x, bool) for x in (d_lo, d_hi)):
+        raise AnalysisError(f"{where} {inst.key}: decode of the raw extremes is not numeric ({d_lo!r}, {d_hi!r})")
     ctx.ob("C10.R3", f"{inst.key}: decode increasing over the raw range", d_lo < d_hi, where,
            f"decode({raw_min}) = {d_lo!r}, decode({raw_max}) = {d_hi!r}")
     tol = 1e-9 * max(1.0, abs(d_lo), abs(d_hi))
@@ -1214,11 +1285,293 @@ def self_check_range(ctx, inst: Inst, where, num: Num, dec, enc, env, raw_min, r
             c_hi = num.ev(o.b, env) if o.b is not None else None
         except Unknown as u:
             raise AnalysisError(f"{where} {inst.key}: clamp bound not evaluable ({u})")
+        if any(x is not None and (isinstance(x, bool) or not isinstance(x, (int, float))) for x in (c_lo, c_hi)):
+            raise AnalysisError(f"{where} {inst.key}: clamp bound is not a number ({c_lo!r}, {c_hi!r})")
         ok = (c_lo is None or c_lo <= d_lo + tol) and (c_hi is None or c_hi >= d_hi - tol)
         ctx.ob("C10.R3", f"{inst.key}: clamp encloses the decoded wire range", ok, where,
                f"encoder clamps to [{c_lo!r}, {c_hi!r}] but raw {raw_min}..{raw_max} decode to [{d_lo!r}, {d_hi!r}]: "
                f"every raw value decoding outside the clamp re-encodes to the clamp's code")
 
+
+
+# ------------------------------------------------------------------------------------------ R1 (wrappers) / R4 (purity)
+
+def _family_codec_methods(ctx) -> List[Tuple[ClassInfo, FuncInfo]]:
+    """encode/decode/serialize/deserialize and the two quantiser kernels of every class of the three families
+    (own definitions only)."""
+    repo = ctx.repo
+    out, seen = [], set()
+    for root in ROOTS:
+        for ci in repo.subclasses(repo.cls(root, SERMOD)):
+            for name in ("encode", "decode", "serialize", "deserialize", "_float_to_quantized", "_quantized_to_float"):
+                f = ci.methods.get(name)
+                if f is not None and f.full not in seen:
+                    seen.add(f.full)
+                    out.append((ci, f))
+    return out
+
+
+def r1_wrappers(ctx):
+    """encode()/decode() of the QuantizedFloatBase family hand the raw parameter to the kernel and return the
+    kernel's result unchanged (any rounding, constant substitution or remapping around it is an extra,
+    non-invertible step that the kernel analysis would not see)."""
+    repo = ctx.repo
+    qfb = repo.cls("QuantizedFloatBase", SERMOD)
+    for ci in repo.subclasses(qfb):
+        for meth, kernel in (("decode", "_quantized_to_float"), ("encode", "_float_to_quantized")):
+            f = ci.methods.get(meth)
+            if f is None:
+                continue
+            ks = [c for c in calls(f.node, into_defs=True) if ap(c.func) == f"self.{kernel}"]
+            if not ks:
+                continue     # not a kernel wrapper (reported by the pairing obligation when required)
+            params = [a.arg for a in f.node.args.args]
+            raw = params[1] if len(params) > 1 else None
+            sts = stores(f.node, into_defs=False)
+
+            def is_kernel_result(e, depth=0) -> bool:
+                if any(e is k for k in ks):
+                    return True
+                if isinstance(e, ast.Subscript) and (ap(e.value) or "").startswith("self."):
+                    return True      # read back from a memo on self: its keying is C10.R4's business
+                if isinstance(e, ast.Name) and depth < 4:
+                    vals = [s for s in sts if s.path == e.id]
+                    if not vals or e.id in params and not vals:
+                        return False
+                    ok = True
+                    for s in vals:
+                        if s.kind != "assign" or s.value is None:
+                            return False
+                        v = s.value
+                        if is_kernel_result(v, depth + 1):
+                            continue
+                        # read back from a container on self (memo): purity of the memo is C10.R4's business
+                        if isinstance(v, ast.Subscript) and (ap(v.value) or "").startswith("self."):
+                            continue
+                        if isinstance(v, ast.Call) and isinstance(v.func, ast.Attribute) and v.func.attr == "get" \
+                                and (ap(v.func.value) or "").startswith("self."):
+                            continue
+                        ok = False
+                    return ok
+                return False
+            rets = [n for n in walk(f.node) if isinstance(n, ast.Return)]
+            bad = [r for r in rets if r.value is None or not is_kernel_result(r.value)]
+            ctx.ob("C10.R1", f"{ci.name}.{meth}: returns the result of {kernel} unchanged", not bad and bool(rets),
+                   ctx.w(f, bad[0]) if bad else f.where,
+                   f"`{norm(bad[0]) if bad else ''}`: the value handed out is not the kernel's result (a substituted "
+                   f"constant loses e.g. the sign of zero the zero-median encoder depends on; a rounded value is "
+                   f"no longer the exact decode)")
+            for k in ks:
+                a0 = k.args[0] if k.args else None
+                # re-binding the name to the kernel's own result afterwards is fine; any other store is not
+                ok = isinstance(a0, ast.Name) and a0.id == raw and not any(
+                    s.path == raw and not (s.value is not None and any(x is kk for kk in ks for x in ast.walk(s.value)))
+                    for s in sts)
+                ctx.ob("C10.R1", f"{ci.name}.{meth}: passes the raw parameter to {kernel}", ok, ctx.w(f, k),
+                       f"first argument {norm(a0) if a0 is not None else '?'} is not the untouched `{raw}` parameter")
+
+
+_FRESH_NP = ("array", "copy", "clip", "rint", "round", "around", "floor", "ceil", "zeros", "ones", "empty", "full",
+             "zeros_like", "ones_like", "empty_like", "abs", "absolute", "add", "subtract", "multiply", "divide",
+             "minimum", "maximum", "where", "frombuffer", "fromiter", "concatenate", "stack")
+_ALIAS_NP = ("asarray", "asanyarray", "ascontiguousarray", "asfortranarray", "ravel", "reshape", "squeeze", "atleast_1d",
+             "atleast_2d", "transpose")
+_ALIAS_METH = ("view", "reshape", "ravel", "squeeze", "transpose", "swapaxes", "newbyteorder")
+_INPLACE_METH = ("sort", "fill", "put", "itemset", "resize", "partition", "setfield", "byteswap")
+
+
+def _np_call(mod: Module, c: ast.Call) -> Optional[str]:
+    f = c.func
+    if isinstance(f, ast.Attribute) and isinstance(f.value, ast.Name) and mod.imports.get(f.value.id) == "numpy":
+        return f.attr
+    return None
+
+
+def _false_const(n) -> bool:
+    return isinstance(n, ast.Constant) and n.value is False
+
+
+class _AliasScan:
+    """Forward scan of one method: which names may still refer to the caller's array (parameter or a view of
+    it), and every in-place operation performed on such a name."""
+
+    def __init__(self, mod: Module, f: FuncInfo, param: str):
+        self.mod, self.f = mod, f
+        self.findings: List[Tuple[ast.AST, str]] = []
+        self.alias: Set[str] = {param}
+
+    def may_alias(self, e: ast.AST, alias: Set[str]) -> bool:
+        if isinstance(e, ast.Name):
+            return e.id in alias
+        if isinstance(e, ast.Subscript):
+            return self.may_alias(e.value, alias)            # basic slicing gives a view
+        if isinstance(e, ast.IfExp):
+            return self.may_alias(e.body, alias) or self.may_alias(e.orelse, alias)
+        if isinstance(e, ast.Call):
+            out = kw(e, "out")
+            if out is not None and self.may_alias(out, alias):
+                return True
+            npf = _np_call(self.mod, e)
+            if npf is not None:
+                if npf in _ALIAS_NP:
+                    return bool(e.args) and self.may_alias(e.args[0], alias)
+                if npf == "array":
+                    cp = kw(e, "copy")
+                    return cp is not None and not (isinstance(cp, ast.Constant) and cp.value is True) and \
+                        bool(e.args) and self.may_alias(e.args[0], alias)
+                return False
+            if isinstance(e.func, ast.Attribute):
+                recv = e.func.value
+                if e.func.attr == "astype":
+                    cp = kw(e, "copy")
+                    return _false_const(cp) and self.may_alias(recv, alias)
+                if e.func.attr in _ALIAS_METH:
+                    return self.may_alias(recv, alias)
+            return False
+        return False
+
+    def scan(self, stmts, alias: Set[str]) -> Set[str]:
+        for st in stmts:
+            alias = self.stmt(st, alias)
+        return alias
+
+    def _check_expr(self, node: ast.AST, alias: Set[str]):
+        for c in walk(node):
+            if not isinstance(c, ast.Call):
+                continue
+            out = kw(c, "out")
+            if out is not None and self.may_alias(out, alias):
+                self.findings.append((c, f"`{norm(c)}` writes its result into `{norm(out)}`, which may be the "
+                                         f"caller's array"))
+            if isinstance(c.func, ast.Attribute) and c.func.attr in _INPLACE_METH and self.may_alias(c.func.value, alias):
+                self.findings.append((c, f"`{norm(c)}` modifies `{norm(c.func.value)}` in place"))
+
+    def stmt(self, st, alias: Set[str]) -> Set[str]:
+        alias = set(alias)
+        if isinstance(st, ast.If):
+            self._check_expr(st.test, alias)
+            a = self.scan(st.body, alias)
+            b = self.scan(st.orelse, alias) if st.orelse else alias
+            return a | b
+        if isinstance(st, (ast.For, ast.While)):
+            a = self.scan(st.body, alias)
+            a = self.scan(st.body, a | alias)
+            return a | alias
+        if isinstance(st, (ast.With, ast.Try)):
+            bodies = [st.body] + ([h.body for h in st.handlers] + [st.orelse, st.finalbody] if isinstance(st, ast.Try) else [])
+            out = set(alias)
+            for b in bodies:
+                out |= self.scan(b, alias)
+            return out
+        self._check_expr(st, alias)
+        if isinstance(st, ast.AugAssign):
+            t = st.target
+            base = t.value if isinstance(t, ast.Subscript) else t
+            if self.may_alias(base, alias):
+                self.findings.append((st, f"`{norm(st)}` updates `{norm(base)}` in place while it may still be the "
+                                          f"caller's array"))
+            return alias
+        if isinstance(st, (ast.Assign, ast.AnnAssign)):
+            targets = st.targets if isinstance(st, ast.Assign) else [st.target]
+            value = st.value
+            for t in targets:
+                if isinstance(t, ast.Subscript) and self.may_alias(t.value, alias):
+                    self.findings.append((st, f"`{norm(st)}` stores into `{norm(t.value)}`, which may be the caller's "
+                                              f"array"))
+                elif isinstance(t, ast.Name) and value is not None:
+                    if self.may_alias(value, alias):
+                        alias.add(t.id)
+                    else:
+                        alias.discard(t.id)
+                elif isinstance(t, (ast.Tuple, ast.List)) and isinstance(value, (ast.Tuple, ast.List)) \
+                        and len(t.elts) == len(value.elts):
+                    for tt, vv in zip(t.elts, value.elts):
+                        if isinstance(tt, ast.Name):
+                            if self.may_alias(vv, alias):
+                                alias.add(tt.id)
+                            else:
+                                alias.discard(tt.id)
+            return alias
+        return alias
+
+
+def _param_inputs(f: FuncInfo, e: ast.AST, depth=0) -> Set[str]:
+    """Parameters (other than self) an expression depends on, through locals."""
+    params = {a.arg for a in f.node.args.args[1:]} | {a.arg for a in f.node.args.kwonlyargs}
+    out: Set[str] = set()
+    if depth > 6:
+        return out
+    sts = stores(f.node, into_defs=False)
+    for n in ast.walk(e):
+        if isinstance(n, ast.Name):
+            if n.id in params:
+                out.add(n.id)
+            for s in sts:
+                if s.path == n.id and s.value is not None and not any(x is n for x in ast.walk(s.value)):
+                    out |= _param_inputs(f, s.value, depth + 1)
+    return out
+
+
+def r4(ctx):
+    ctx.rule("C10.R4", "codec purity: encode/decode neither modify the caller's array in place (no in-place op or "
+                       "out= on the parameter or a view of it before it is copied) nor keep results on self under a "
+                       "key that omits an input (context-dependent ranges)")
+    repo = ctx.repo
+    n_arr = 0
+    n_fn = 0
+    for ci, f in _family_codec_methods(ctx):
+        n_fn += 1
+        params = [a.arg for a in f.node.args.args]
+        mod = f.module
+        # (a) array parameters: the value parameter when numpy is applied to it
+        for p in params[1:]:
+            if p in ("reader", "writer", "ctx", "pod"):
+                continue
+            uses_np = False
+            for c in calls(f.node, into_defs=False):
+                if _np_call(mod, c) is not None and any(isinstance(a, ast.Name) and a.id == p for a in c.args):
+                    uses_np = True
+                if isinstance(c.func, ast.Attribute) and isinstance(c.func.value, ast.Name) and c.func.value.id == p \
+                        and c.func.attr in ("astype", "reshape", "view", "copy", "tobytes"):
+                    uses_np = True
+            if not uses_np:
+                continue
+            n_arr += 1
+            sc = _AliasScan(mod, f, p)
+            sc.scan(f.node.body, {p})
+            ctx.ob("C10.R4", f"{f.qual}: `{p}` is copied before any in-place operation", not sc.findings,
+                   ctx.w(f, sc.findings[0][0]) if sc.findings else f.where,
+                   (sc.findings[0][1] if sc.findings else "") + ": the decoded array handed in by the caller is "
+                   "rescaled behind its back, so encoding the same decoded value again gives different raws")
+        # (b) results kept on self must be keyed by every input
+        bad = []
+        nstore = 0
+        for s in stores(f.node, into_defs=True):
+            if not s.path.startswith("self."):
+                continue
+            nstore += 1
+            if s.kind in ("setitem", "augsetitem"):
+                key = s.target.slice
+                val = s.value
+            elif s.kind == "mutcall" and s.method in ("setdefault", "update", "append", "add", "insert", "extend"):
+                key = s.node.args[0] if s.method == "setdefault" and s.node.args else None
+                val = s.node.args[-1] if s.node.args else None
+            elif s.kind in ("assign", "augassign"):
+                key, val = None, s.value
+            else:
+                continue
+            need = _param_inputs(f, val) if val is not None else set()
+            have = _param_inputs(f, key) if key is not None else set()
+            missing = sorted(need - have - {"pod"})
+            if missing:
+                bad.append((s, missing))
+        ctx.ob("C10.R4", f"{f.qual}: nothing derived from the arguments is kept on self under an incomplete key",
+               not bad, ctx.w(f, bad[0][0].node) if bad else f.where,
+               (f"`{norm(bad[0][0].node)}` remembers a value computed from {bad[0][1]} without keying on "
+                f"{bad[0][1]}: a later call with a different {'/'.join(bad[0][1])} (e.g. another animation's "
+                f"duration behind ctx) gets the stale result" if bad else ""))
+    ctx.floor("C10.R4", "codec methods examined", n_fn, 8)
+    ctx.floor("C10.R4", "array-valued codec parameters", n_arr, 2)
 
 # ------------------------------------------------------------------------------------------ driver
 
@@ -1235,6 +1588,8 @@ def run(ctx):
         seqs[ci] = (dec, enc)
         ctx.stats[f"C10.ops.{ci.name}"] = {"decode": _fmt(dec), "encode": _fmt(enc)}
     r1(ctx, pairs, seqs)
+    r1_wrappers(ctx)
     r2_r3(ctx, pairs, seqs, prims)
+    r4(ctx)
     ctx.assume("bit-exact encode(decode(raw)) == raw over all raws, IEEE rounding and monotonicity in float "
                "arithmetic are not decided; instance checks use real-arithmetic reasoning with a 1e-9 tolerance")
